@@ -257,8 +257,16 @@ def perturb_map(draw, map_plain, input_plain, t):
         si = draw(st.integers(0, len(out) - 1))
         rows = out[si][1]
         frag_idx = [i for i, r in enumerate(rows) if r[0] == "F"]
-        op = draw(st.sampled_from(["drop", "dup", "rev", "shift", "replace", "beyond", "tags", "arbitrary", "hole", "hole", "lap"]))
+        op = draw(st.sampled_from(["drop", "dup", "rev", "shift", "replace", "beyond", "tags", "arbitrary", "hole", "hole", "lap", "whole"]))
         ops.append(op)
+        if op == "whole":
+            # a line presenting a whole input scaffold, in addition to whatever pieces of it the map already holds
+            # (a contig cut between two pieces then also lies in the interior of a third)
+            present = sorted({r[1] for _n, rws in out for r in rws if r[0] == "F" and r[1] in lengths}) or names
+            name = draw(st.sampled_from(present))
+            new = ["F", name, 1, lengths[name], draw(st.sampled_from([1, -1])), ["Painted"] if draw(st.booleans()) else []]
+            out[draw(st.integers(0, len(out) - 1))][1].append(new)
+            continue
         if op in ("hole", "lap"):
             # open a hole (or an overlap) of up to 2 texels at a cut between two pieces of one input scaffold
             pairs = []
@@ -537,7 +545,7 @@ def tagged_case(
     while idx < len(order):
         size = draw(st.sampled_from(group_sizes or ([1, 1, 2, 3, 4] if not many_painted else [1, 1, 1, 2])))
         group = order[idx : idx + size]
-        idx += size
+        idx += len(group)  # (not `size`: pieces deferred to the end of `order` below must still be reached)
         painted = True if all_painted else (draw(st.integers(0, 3)) > 0 if many_painted else draw(st.booleans()))
         rows = []
         for pi in group:
